@@ -106,6 +106,14 @@ pub fn run(ctx: &Ctx) -> Value {
     }
     for &x in dt_lattice(&mut rng, ctx.t(100, 5_000), true).iter() {
         let u = x.and_utc();
+        // the timestamp accessors on leap-second values too (the deprecated NaiveDateTime forms are a second route)
+        if x.and_utc().timestamp_subsec_nanos() >= 1_000_000_000 {
+            tw.emit(ev("dt.ts", json!({"dt": ndt(x)}), || json!({"s": big(u.timestamp() as i128), "ms": big(u.timestamp_millis() as i128), "us": big(u.timestamp_micros() as i128),
+                "ns": opt(u.timestamp_nanos_opt(), |v| big(v as i128))})));
+            #[allow(deprecated)]
+            tw.emit(ev("dt.ts", json!({"dt": ndt(x), "route": "naive"}), || json!({"s": big(x.timestamp() as i128), "ms": big(x.timestamp_millis() as i128), "us": big(x.timestamp_micros() as i128),
+                "ns": opt(x.timestamp_nanos_opt(), |v| big(v as i128))})));
+        }
         tw.emit(ev("dt.subsec", json!({"dt": ndt(x)}), || json!({"ns": u.timestamp_subsec_nanos(), "us": u.timestamp_subsec_micros(), "ms": u.timestamp_subsec_millis()})));
     }
     // the system clock type
